@@ -3,4 +3,4 @@
 From Coq Require Import ZArith List.
 Require Import ExtrOcamlBasic.
 Require Import XV.TargetsDefs.
-Extraction "extracted/targets_model.ml" run_target den_t den script top_ok Z.of_N length.
+Extraction "extracted/targets_model.ml" run_target run_indexes fresh_start number_list den_t den script top_ok Z.of_N length.
